@@ -411,7 +411,7 @@ func (e *specEnv) selector(s *SExpr) Val {
 		f := stt.Field(fi)
 		nv, ok := x.vc.selField(cur, f.Name())
 		if !ok {
-			e.fail("field %s on sort %s", f.Name(), cur.Sort)
+			nv = x.opaqueField(cur, t, f)
 		}
 		cur = nv
 		t = f.Type()
